@@ -39,7 +39,7 @@ CHECKS = {
          "Trusted: gram.Analysis (nullable fixpoint + left-edge reachability).",
          "DESIGN.md 4 C08"),
  "C09": ("Go race detector + per-operation equality with fresh-instance sequential results under a barrier-released multi-goroutine workload",
-         "Race detector (happens-before) over concurrent Parse*/Lex/String/LexString on shared parsers, the ebnf package parser, example parsers and a per-round back-reference definition; results compared with isolated fresh instances; history independence re-checked sequentially.",
+         "Race detector (happens-before) over concurrent Parse*/Lex/String/LexString on shared parsers (incl. ParseFromLexer, ParserForProduction, per-call options), the ebnf package parser, example parsers, per-round back-reference definitions, three lexer definitions emitted by `participle gen lexer`, and a configured next to the default text/scanner definition; results compared with isolated fresh instances; history independence re-checked sequentially.",
          "Trusted: the Go race detector; absence of reports covers only the executed interleavings. porcupine is not used: every operation is a pure function of its arguments, so linearizability degenerates to per-operation equality.",
          "DESIGN.md 3.5, 4 C09"),
  "C10": ("metamorphic relation: identical accept/reject and captured fields across re-spacings/re-commentings with equal non-elided token sequences; reference leaf rule for grammars naming elided types",
@@ -60,7 +60,7 @@ CHECKS = {
          "DESIGN.md 4 C13"),
  "C14": ("output validity + completeness counts + print/parse fixpoint of Parser.String() through the ebnf package on generated grammars",
          "Every generated grammar's EBNF must parse, start with the root, define each referenced production once, carry exactly the IR's multiset of literals/references/operators, and survive print->parse->print.",
-         "Trusted: multiset comparison (not tree shape); named productions only.",
+         "Trusted: the structural comparison of every production's EBNF with the grammar IR (plus multiset counts); named productions only.",
          "DESIGN.md 4 C14"),
  "C15": ("pairwise equality of (AST, error) across all entry points, recording Definition wrapper for the consumed token stream, reference semantics for the post-parse lexer position",
          "Relational runtime check across ParseString/ParseBytes/Parse/ParseFromLexer/Trace/named-reader and Definition.Lex/LexString/LexBytes.",
